@@ -160,6 +160,15 @@ def run(ctx):
                 if e(rs) != rb:
                     ctx.counterexample('WcMatch(%r, %r): bytes result differs from the encoded str result' % (p, x),
                                        {'pattern': p, 'exclude': x, 'str': rs, 'bytes': repr(rb)})
+        # omitted patterns take their type from the root directory
+        for args in [(), (None, 'd'), ('*.txt',), (None, None), ('*.txt', None)]:
+            for wv in (WM.RECURSIVE, 0, WM.RECURSIVE | WM.HIDDEN):
+                evals += 1
+                rs = WM.WcMatch(tmp, *args, flags=wv).match()
+                rb = WM.WcMatch(e(tmp), *[e(a) if a is not None else None for a in args], flags=wv).match()
+                if e(rs) != rb:
+                    ctx.counterexample('WcMatch(root%s, flags=%#x): bytes root gives %d paths, str root %d' % (''.join(', %r' % (a,) for a in args), wv, len(rb), len(rs)),
+                                       {'args': [a for a in args], 'flags': wv, 'str': rs, 'bytes': repr(rb)})
     finally:
         shutil.rmtree(tmp, ignore_errors=True)
     ctx.counted('str vs bytes', evals, len(nontriv), [{'pattern': pats[0]}, {'byte': '0xe9', 'form': '[!z-a]'}])
